@@ -592,3 +592,98 @@ Proof.
         apply env_at_some in He as (_ & _ & E). rewrite (bind_eq _ _ _ _ _ (env_get_eq _ _ _ _ _ E Ec)). reflexivity. }
       rewrite R in H0. destruct cur; exact (IH _ Hr H0).
 Qed.
+
+(* ------------------------------------------------------------------ the discipline, as a decidable monitor *)
+(* What a whole-machine theorem would have to maintain at every instruction boundary INSIDE a
+   procedure body (after its ENTER): the candidate invariant, executable, so that it can be run
+   along real evaluations (Proofs/NoPanicEnvEx.v) and so that the hypotheses of the theorems above
+   are exhibited on reachable states. *)
+Fixpoint find_enter (bc : list vcell) (i : N) : option N :=
+  match bc with
+  | [] => None
+  | VOp OEnter :: _ => Some i
+  | _ :: r => find_enter r (i + 1)
+  end.
+Definition enter_pos (l : lambda) : option N := find_enter (l_bc l) 0.
+Definition env_len (s : vm) (p : N) : option N :=
+  match env_at s p with Some (_, l) => Some (len l) | None => None end.
+Definition envb (s : vm) (l : lambda) : bool :=
+  match l_envmap l with
+  | [] => true
+  | _ => match env_len s (ep s) with Some n => len (l_envmap l) <=? n | None => false end
+  end.
+Definition frameb (s : vm) : bool :=
+  match sget s (bp s + 1), sget s (bp s + 2), sget s (bp s + 3), sget s (bp s + 4) with
+  | VArgc n, VEp _, VIp _ _, VBp _ => (n <=? bp s) && (bp s + 4 <=? sp s) && (sp s <? scap s)
+  | _, _, _, _ => false
+  end.
+Definition in_body (s : vm) (l : lambda) : bool :=
+  match enter_pos l with Some p => p <? snd (ip s) | None => false end.
+(* the closure about to be made (CLOSURE) / entered (ENTER) *)
+Definition next_op (s : vm) (l : lambda) : option opcode :=
+  match list_get (l_bc l) (snd (ip s)) with Some (VOp o) => Some o | _ => None end.
+Definition lambda_at (s : vm) (p : N) : option lambda :=
+  match heap_get (hp s) p with Ok (VLambda lid) => tget (lams (st s)) lid | _ => None end.
+Definition closureb (s : vm) (l : lambda) : bool :=
+  match next_op s l with
+  | Some OClosureAcc =>
+      match acc s with
+      | VPtr lp => match lambda_at s lp with
+                   | Some l2 => iof_okb (match l_envmap l with [] => 0 | _ => len (l_envmap l) end) (l_envmap l2)
+                   | None => false end
+      | _ => false
+      end
+  | Some OEnter =>
+      match heap_deref (hp s) (acc s) with
+      | Ok (VClosure lam cep) =>
+          match lambda_at s lam, env_len s cep with
+          | Some l2, Some n => n =? len (l_envmap l2)
+          | _, _ => false
+          end
+      | _ => true
+      end
+  | _ => true
+  end.
+Definition disc_okb (s : vm) : bool :=
+  match code_at s with
+  | None => false
+  | Some l =>
+      lex_okb l && closureb s l &&
+      (if in_body s l then envb s l && frameb s
+       else match enter_pos l with None => match l_envmap l with [] => true | _ => false end | Some _ => true end)
+  end.
+
+Lemma envb_ep_ok s l : envb s l = true -> ep_ok s (len (l_envmap l)).
+Proof.
+  unfold envb, env_len. destruct (l_envmap l) as [|x r] eqn:E; [left; reflexivity|].
+  destruct (env_at s (ep s)) as [[eid e]|] eqn:He; [|discriminate].
+  intros H. apply N.leb_le in H. right. exists eid, e. split; [exact He|exact H].
+Qed.
+Lemma frameb_frame_at s : frameb s = true ->
+  exists n e i b, frame_at s n e i b /\ bp s + 4 <= sp s /\ sp s < scap s.
+Proof.
+  unfold frameb, frame_at.
+  destruct (sget s (bp s + 1)) eqn:E1; try discriminate.
+  destruct (sget s (bp s + 2)) eqn:E2; try discriminate.
+  destruct (sget s (bp s + 3)) eqn:E3; try discriminate.
+  destruct (sget s (bp s + 4)) eqn:E4; try discriminate.
+  intros H. apply andb_prop in H as [H H3]. apply andb_prop in H as [H1 H2].
+  apply N.leb_le in H1. apply N.leb_le in H2. apply N.ltb_lt in H3.
+  match goal with
+  | A : sget s (bp s + 1) = VArgc ?n, B : sget s (bp s + 2) = VEp ?e,
+    C : sget s (bp s + 3) = VIp ?x ?y, D : sget s (bp s + 4) = VBp ?b |- _ =>
+      exists n, e, (x, y), b
+  end. cbn [fst snd]. repeat split; try reflexivity; assumption.
+Qed.
+(* the monitor implies the hypotheses of the theorems of this file *)
+Theorem disc_okb_sound s :
+  disc_okb s = true ->
+  exists l, code_at s = Some l /\ lex_okb l = true /\
+    (in_body s l = true -> ep_ok s (len (l_envmap l)) /\
+       exists n e i b, frame_at s n e i b /\ bp s + 4 <= sp s /\ sp s < scap s).
+Proof.
+  unfold disc_okb. destruct (code_at s) as [l|]; [|discriminate]. intros H.
+  apply andb_prop in H as [H H2]. apply andb_prop in H as [Hl Hc].
+  exists l. split; [reflexivity|]. split; [exact Hl|]. intros Hb. rewrite Hb in H2.
+  apply andb_prop in H2 as [He Hf]. split; [apply envb_ep_ok; exact He|apply frameb_frame_at; exact Hf].
+Qed.
